@@ -171,7 +171,8 @@ func (g *pgen) numExpr(d int) string {
 	case 0, 1, 2:
 		return g.numExpr(d-1) + " " + pick(g.r, "+", "-", "*") + " " + g.numExpr(d-1)
 	case 3:
-		return g.numExpr(d-1) + " / " + pick(g.r, g.fltLit(), "2", "3", "(1 + "+g.numExpr(d-2)+" * 0 + 1)")
+		// now and then a floating division by zero: infinities and NaN are ordinary values
+		return g.numExpr(d-1) + " / " + pick(g.r, g.fltLit(), "2", "3", "(1 + "+g.numExpr(d-2)+" * 0 + 1)", g.fltLit(), "2", "0.0", "(0.5 - 0.5)")
 	case 4:
 		return "(" + g.numExpr(d-1) + ")"
 	case 5:
@@ -416,6 +417,9 @@ func evalGen(r *rand.Rand, tier string, n int) []*wire.Case {
 	}
 	add("d-arith", "print(1 + 2 * 3);", "print(7 / 2);", "print(7 / 2 + 0.5);", "print(7 / 2.0);", "print(1 / 0.5);", "print(len([1,2,3]) + 0.5);", "print(-7 / 2);", "print(0.1 + 0.2);",
 		"print(9223372036854775807 + 1);", "print(3 * 1.5 - 1);", "print(true + true);", "print(2 - - 2);", "print(!0); print(!2.5); print(!0.0);")
+	add("d-nan", "let z = 0.0; let n = z / z; print(n <= 1); print(1 <= n); print(n >= 1); print(1 >= n); print(n <= n); print(n >= n); print(n < 1); print(n > 1); print(n == n); print(n != n); print(n <> 1);",
+		"let i = 1 / 0.0; print(i > 100); print(0 - i < 0); print(i <= i); print(i - i <= 0); print(!(i - i)); print((i - i) && 1); print((i - i) || 0);",
+		"let z = 0.0; if z / z <= 0.5 { print(1); } else { print(2); } while z / z >= 0 { print(3); break; }")
 	add("d-compare", "print(1 < 2); print(2 <= 2); print(3 > 4); print(1 == 1.0); print(1 != 2); print(1 <> 1); print(2 && 0); print(0 || 0.0); print(0 || \"s\" == 1);")
 	add("d-errors", "print(1 / 0);", "print(1.0 / 0);", "print(\"a\" + 1);", "print(nope);", "fn f(a) { return a; } print(f());", "let a = 1; let a = 2;", "print(5 / (2 - 2));", "print(type(1)); print(type(\"s\")); print(type(null)); print(type([1])); print(type(print)); print(type(fn(){ return 1; }));")
 	add("d-fn-args", "let a = 1; let b = 2; fn second(b, a) { return a; } print(second(a, b)); print(second(b, a));",
